@@ -98,6 +98,9 @@ type ObjectSpec struct {
 	Mode     string // "sequential": no interference at lock acquisition (properties over call histories)
 	Volatile []string
 	Bounded  []string // counters assumed not to overflow (|x| < 2^62 at lock acquisition)
+	Published []string // fields written once by the holder of a token before close(PubChan), read only after it is closed
+	PubChan  string   // channel field whose close publishes them
+	PubToken string   // owned ghost map: object -> invocation allowed to write
 	Owns     []string // pointer fields whose target objects are used only while this object's lock is held
 }
 
@@ -411,6 +414,18 @@ func ParseSpecFile(path, pkgPath string, ps *PkgSpec) error {
 			curO.Locals = true
 		case "mode":
 			curO.Mode = rest
+		case "published":
+			// published f1, f2 by <chanfield> token <ghostmap>
+			if curO == nil {
+				return fail(l.n, "published outside object block")
+			}
+			fs, tail, ok := strings.Cut(rest, " by ")
+			if !ok {
+				return fail(l.n, "expected: published f1, f2 by <chan field> token <owned ghost map>")
+			}
+			ch, tok, _ := strings.Cut(tail, " token ")
+			curO.Published = append(curO.Published, strings.Fields(strings.ReplaceAll(fs, ",", " "))...)
+			curO.PubChan, curO.PubToken = strings.TrimSpace(ch), strings.TrimSpace(tok)
 		case "owns":
 			if curO == nil {
 				return fail(l.n, "owns outside object block")
